@@ -388,4 +388,6 @@ func checkC05(w *World, r *Report) {
 	}
 	// a fixed price bid's cap is enforced once, at acceptance: it stays valid only if the bid is never changed afterwards
 	r.Sub(checkC06, "FP-NO-REWRITE")
+	// the allowances read at settlement and at acceptance are those of the operated auction
+	r.Sub(checkC19, "PREFIX-RANGE")
 }
